@@ -360,9 +360,22 @@ def sorted_of(E, s, st):
     raise OutsideSubset("sorted_of")
 
 
+def _permutation_of(E, s, st, tag):
+    """an ordering of the list decided by a key function the engine does not interpret: some permutation (same length, same members)"""
+    r = E.fresh(s.ty, tag)
+    st.assume(Q.Length(r.t) == Q.Length(s.t))
+    x = z3.Const(f"x!prm{next(E.n)}", E.U.sort(s.ty.elem))
+    st.assume(z3.ForAll([x], E.seq_member(r.t, x) == E.seq_member(s.t, x)))
+    E.assumptions.add("sorted(xs, key=...) / xs.sort(key=...): an arbitrary permutation of xs (the key function is not interpreted)")
+    return r
+
+
 def b_sorted(E, args, kw, st, node):
     v = args[0]
     if kw:
+        if set(kw) <= {"key", "reverse"} and not (isinstance(v, SVal) and isinstance(v.ty, TSet)):
+            yield st, _permutation_of(E, seq_of(E, v, st), st, "sorted_by_key")
+            return
         raise OutsideSubset("sorted with key")
     if isinstance(v, SVal) and isinstance(v.ty, TSet):
         sset = v
@@ -911,6 +924,9 @@ def list_method(E, recv, name, lv, args, kw, st, node):
         yield st, v
     elif name == "clear":
         E.mutate(st, lv, recv, SVal(Q.Empty(recv.t.sort()), ty))
+        yield st, SVal(None, NONE)
+    elif name in ("sort", "reverse"):
+        E.mutate(st, lv, recv, _permutation_of(E, SVal(recv.t, ty), st, "sorted_in_place"))
         yield st, SVal(None, NONE)
     else:
         raise OutsideSubset(f"list.{name}")
